@@ -214,7 +214,7 @@ func c19EscapeShaped(r *Rng) []rune {
 
 // Escape(s) compiled between \A(?: )\z matches exactly s under every literal-preserving option set.
 func legC19Literal(c *Ctx) {
-	c.Rule("Compile(`\\A(?:`+Escape(s)+`)\\z`, O) for O over subsets of {Multiline,Singleline,ExplicitCapture,IgnorePatternWhitespace,RightToLeft}: must match s and reject 20 one-edit mutants; non-trivial = s contains a metacharacter, whitespace or non-printable (distinct by (s,O))")
+	c.Rule("Compile(`\\A(?:`+Escape(s)+`)\\z`, O) for O over subsets of {Multiline,Singleline,ExplicitCapture,IgnorePatternWhitespace,RightToLeft} optionally with one of ECMAScript, ECMAScript|Unicode, RE2, Unicode (combinations the compiler rejects even for the pattern `a` are skipped): must match s and reject 20 one-edit mutants; non-trivial = s contains a metacharacter, whitespace or non-printable (distinct by (s,O))")
 	optBits := []regexp2.RegexOptions{regexp2.Multiline, regexp2.Singleline, regexp2.ExplicitCapture, regexp2.IgnorePatternWhitespace, regexp2.RightToLeft}
 	n := c.N(1500, 40000)
 	for i := 0; i < n; i++ {
@@ -227,7 +227,20 @@ func legC19Literal(c *Ctx) {
 				o |= b
 			}
 		}
-		cs := &Case{Desc: fmt.Sprintf("literal: s=%+q escaped=%+q opts=%#x", str, esc, int(o)), Nontrivial: esc != str, Class: "literal"}
+		class := "literal"
+		if c.Rng.Chance(40) {
+			// dialect options keep the literal meaning too; ECMAScript only combines with a few options
+			d := Pick(c.Rng, []regexp2.RegexOptions{regexp2.ECMAScript, regexp2.ECMAScript | regexp2.Unicode, regexp2.RE2, regexp2.Unicode})
+			if d&regexp2.ECMAScript != 0 {
+				o &= regexp2.Multiline
+			}
+			o |= d
+			if _, err := regexp2.Compile(`a`, o); err != nil {
+				continue
+			}
+			class = "literal/dialect"
+		}
+		cs := &Case{Desc: fmt.Sprintf("literal: s=%+q escaped=%+q opts=%#x", str, esc, int(o)), Nontrivial: esc != str, Class: class}
 		re, err := regexp2.Compile(`\A(?:`+esc+`)\z`, o)
 		if err != nil {
 			cs.Direct = "Escape(s) does not compile: " + err.Error()
